@@ -26,6 +26,13 @@ func person(i int, side string) gen.Person {
 	if i%2 == 1 {
 		sex = "F"
 	}
+	if i == 0 {
+		// a bare fact on the left that the right-hand copy may carry with details (and the other way round for person 2)
+		return gen.Person{Ptr: "I1", Given: names[0][0], Surname: names[0][1], Sex: sex, Birth: births[0], Marker: fmt.Sprintf("MK%s1", side), Extra: []string{"1 DEAT Y"}}
+	}
+	if i == 1 {
+		return gen.Person{Ptr: "I2", Given: names[1][0], Surname: names[1][1], Sex: sex, Birth: births[1], Marker: fmt.Sprintf("MK%s2", side), Extra: []string{"1 BURI", "2 DATE 9 Sep 1880", "2 PLAC Oldtown"}}
+	}
 	return gen.Person{Ptr: fmt.Sprintf("I%d", i+1), Given: names[i][0], Surname: names[i][1], Sex: sex, Birth: births[i], Marker: fmt.Sprintf("MK%s%d", side, i+1)}
 }
 
@@ -194,6 +201,18 @@ var edits = []edit{
 	{"birth-first-plus-40y", func(g *gen.Graph) {
 		if len(g.People) > 0 {
 			g.People[0].Birth = "3 Mar 1841"
+		}
+	}},
+	{"death-with-details-first", func(g *gen.Graph) {
+		if len(g.People) > 0 && g.People[0].Ptr == "I1" {
+			g.People[0].Extra = []string{"1 DEAT", "2 DATE 9 Sep 1870", "2 PLAC Newtown"}
+		}
+	}},
+	{"burial-bare-second", func(g *gen.Graph) {
+		for i := range g.People {
+			if g.People[i].Ptr == "I2" {
+				g.People[i].Extra = []string{"1 BURI"}
+			}
 		}
 	}},
 	{"add-fact-first", func(g *gen.Graph) {
@@ -583,7 +602,7 @@ func main() {
 	vlib.Main(&vlib.Check{
 		ID:    "C10",
 		Level: "exploration",
-		Rule: "cases: 5 referentially closed base family graphs (single, couple, couple+child, two families sharing a spouse, child who is also a spouse) x every sequence of <=k edits of the right-hand copy from 11 edits (renumber all/one person/one family, drop first/last person, add a child, rename slightly/completely, birth +1y/+40y, add a fact), plus empty / disjoint / clashing-pointer documents on either side, x {default, strict 0.95, lenient 0.3} x {library call, query function}. " +
+		Rule: "cases: 5 referentially closed base family graphs (single, couple, couple+child, two families sharing a spouse, child who is also a spouse) x every sequence of <=k edits of the right-hand copy from 13 edits (renumber all/one person/one family, drop first/last person, add a child, rename slightly/completely, birth +1y/+40y, add a fact), plus empty / disjoint / clashing-pointer documents on either side, x {default, strict 0.95, lenient 0.3} x {library call, query function}. " +
 			"Non-trivial = both documents non-empty; distinct by (left text, right text, options, entry).",
 		Assumptions: []string{
 			"every individual carries a unique marker NOTE so that the matching chosen by the implementation does not need to be known",
